@@ -75,6 +75,34 @@ def run_one(res, spec, vtol, itol, maxiter, tag):
         return orig(*a, **k)
 
     s._fwd_prop = counting  # instance attribute: harness-side sweep counter
+    # record the last two iterates of every phase: the returned state must satisfy the documented stopping rule for the REQUESTED tolerances
+    import numpy as np
+    hist_v, hist_i, finished = [], [], []
+    orig_back, orig_init = s._back_prop, s._sys_init
+
+    def rec_init(*a, **k):
+        if hist_v:
+            finished.append((list(hist_v), list(hist_i)))
+        del hist_v[:]
+        del hist_i[:]
+        r = orig_init(*a, **k)
+        hist_v.append(np.array(r[0], dtype=float))
+        hist_i.append(np.array(r[1], dtype=float))
+        return r
+
+    def counting2(*a, **k):
+        r = counting(*a, **k)
+        hist_v.append(np.array(r[0], dtype=float))
+        del hist_v[:-2]
+        return r
+
+    def rec_back(*a, **k):
+        r = orig_back(*a, **k)
+        hist_i.append(np.array(r, dtype=float))
+        del hist_i[:-2]
+        return r
+
+    s._fwd_prop, s._back_prop, s._sys_init = counting2, rec_back, rec_init
     kw = {}
     if vtol is not None:
         kw = dict(vtol=vtol, itol=itol, maxiter=maxiter)
@@ -102,6 +130,14 @@ def run_one(res, spec, vtol, itol, maxiter, tag):
     if df is None:
         return out
     res.classes.add(tag + ":table")
+    finished.append((list(hist_v), list(hist_i)))
+    vt_, it_ = (1e-6, 1e-6) if vtol is None else (vtol, itol)
+    for pv, pi in finished:
+        if len(pv) == 2 and len(pi) == 2:
+            if not np.all(np.abs(pv[0] - pv[1]) <= 1e-8 + vt_ * np.abs(pv[1]) * (1 + 1e-9)):
+                res.v(("C03.stopped-before-voltages-settled",), "vtol=%g: last two voltage iterates %r %r" % (vt_, pv[0].tolist(), pv[1].tolist()))
+            if not np.all(np.abs(pi[0] - pi[1]) <= 1e-8 + it_ * np.abs(pi[1]) * (1 + 1e-9)):
+                res.v(("C03.stopped-before-currents-settled",), "itol=%g: last two current iterates %r %r" % (it_, pi[0].tolist(), pi[1].tolist()))
     obs = observe(df)
     res.stats["traces"] += 1
     vt, it = (1e-6, 1e-6) if vtol is None else (vtol, itol)
@@ -207,6 +243,12 @@ def gen_cases(tier):
                 for micro in (2e-6, 2e-5):
                     yield dict(fam="spread", depth=depth, heavy=heavy, micro=micro, pol=1, pal=pal)
         # B overload at every position
+        for n in (1, 2, 3):   # an overloaded mux / switch that carries a phase list and is ACTIVE: the guard must still fire
+            for f in over.iter_forests(n):
+                sp = spec_from_forest(f, pal, 1, 0.0, extra=heavy_letters(pal))
+                for c in sp["comps"][1:]:
+                    if c["k"] in ("PMux", "PSwitch") and c["n"].startswith(("MXh", "PSh")):
+                        yield dict(fam="over", f=f, pal=pal, pol=1, srs=0.0, who=c["n"], pc=["a", "b"])
         for n in ((1, 2, 3) if tier == "quick" or pal != sd % 3 else (1, 2, 3, 4)):
             for f in over.iter_forests(n):
                 for pol, srs in ((1, 0.0), (1, _r(2.0 * PALETTES[pal]["V"])), (-1, 0.0), (-1, 0.37)):
